@@ -8,7 +8,7 @@ NOTE = "Trusted: TLC, the GrolPrims Java override (machine arithmetic, Go number
 done = {
  "C20": ("Trie.tla: implementation-shaped trie (shared end marker, min/max, valid) refines the word set; TLC explores every reachable trie for all words of length<=3 over {a,b} (and alphabets with bytes 0/255), invariants MembershipOK/PrefixOK/MinMaxOK in every state; every explored transition is replayed on trie.Trie and the completion callback; random longer histories recorded from trie.Trie are validated by Trie_Trace.tla",
          "TLC model checking of Trie.tla + transition replay on trie.Trie + trace validation (Trie_Trace.tla)"),
- "C01": ("GrolSem.tla is an independent reference evaluator of the core language written in TLA+ and executed by TLC; programs generated from the spec-side grammar (AST rendered with minimal parentheses from the spec's precedence table) are run on the real interpreter and each run (output text, final value by structure and type, error/non-error) is validated by Sem_Trace.tla against the reference semantics",
+ "C01": ("GrolSem.tla is an independent reference evaluator of the core language written in TLA+ and executed by TLC; programs generated from the spec-side grammar (AST rendered with minimal parentheses from the spec's precedence table) are run on the real interpreter and each run (output text, final value by structure and type, error/non-error) is validated by Sem_Trace.tla against the reference semantics; GrolSem also models a library fragment (extension functions, abs, keys): programs calling it are validated too but a disagreement there is reported as EXTENDED-DEVIATION, not as a violation of C01 (whose statement is the core language)",
          "TLC-executed TLA+ reference semantics (GrolSem) + trace validation of real runs (Sem_Trace.tla)"),
 }
 extra = {}
@@ -38,7 +38,5 @@ m = {"version": 1, "setup_cmd": "./check --setup",
                   "kind_free_text": "TLA+ specs in /verif/spec checked by TLC (MC), TLC-emitted transitions replayed on the real code (GEN), traces recorded from the real code validated by TLC trace specs (TV); Go harness /verif/harness"}],
      "checks": checks, "not_applicable": na,
      "notes": "Exit codes: 0 held, 1 violation, 2 infrastructure problem. known_findings.json is the read-only ledger of genuine defects (fixed / known)."}
-if not na:
-    del m["not_applicable"]
 json.dump(m, open(os.path.join(V, 'MANIFEST.json'), 'w'), indent=1)
 print("claimed:", sorted(done), "not yet:", [x["property_id"] for x in na])
